@@ -2,11 +2,16 @@
 Props/C02.lean — B = μ₀H + J everywhere; J = μ₀M; J is the indicator of the body times the
 polarization.  Wrapper models: Model/Kernels.lean (the closed-form core is a parameter, so the
 statements hold whatever the core returns — at surfaces, edges, corners and for every special
-case).  `μ` is an arbitrary non-zero value of mu_0.
+case).  `μ` is an arbitrary non-zero value of mu_0.  Cylinder: the full port of `BHJM_magnet_cylinder`
+(Model/Cylinder.lean) is shown to be `wrapCylinder` of its own masks and cores, hence consistent at
+every observer, and its inside mask is the closed geometric cylinder (Lemmas/KernCylinder.lean).
 -/
 import MagpyVerif.Lemmas.KernReal
+import MagpyVerif.Lemmas.KernelLiterals
 import MagpyVerif.Lemmas.KernAlgebra
+import MagpyVerif.Lemmas.KernCylinder
 import MagpyVerif.Gen.Const
+import MagpyVerif.Lemmas.TrimeshInside
 namespace MagpyVerif.C02
 open MagpyVerif MagpyVerif.Kern
 
@@ -107,6 +112,77 @@ theorem circle_consistent (fuel : Nat) (d cur : ℝ) (x : V3 ℝ) :
   simp only [Option.map_some, Option.some.injEq] at hb
   subst hb
   exact ⟨(add_zero3 μ _).symm, (vs_zero3 μ μ).symm⟩
+/-- C02 (Cylinder): the ported `BHJM_magnet_cylinder` (Model/Cylinder.lean: cylinder coordinates,
+division by r0, all masks, transversal and axial contributions, rotation back, inside terms, on-edge
+rule) **is** the abstract dispatch `wrapCylinder` applied to the code's own inside / on-edge masks and
+to the two Cartesian core contributions `cylCoreAx` (axial kernel · pol_z) and `cylCoreTv`
+(diametral kernel · pol_xy): J and M always, B and H whenever the elliptic integrals of the cores
+return (`none` = a `cel0` call failed), and B is computed iff H is. -/
+theorem cylinder_is_wrapCylinder (fuel : Nat) (dim : ℝ × ℝ) (pol x : V3 ℝ) :
+    letI := realNum μ
+    let r0 := dim.1 / 2
+    let z0 := dim.2 / 2 / r0
+    let r := Real.sqrt (x.x * x.x + x.y * x.y) / r0
+    let z := x.z / r0
+    let phi := Complex.arg ⟨x.x, x.y⟩
+    let m := cylMasks z0 r z
+    (∀ ax tv, bhjmCylinder fuel .J dim pol x = some (wrapCylinder .J m.inside m.onEdge pol ax tv) ∧
+      bhjmCylinder fuel .M dim pol x = some (wrapCylinder .M m.inside m.onEdge pol ax tv)) ∧
+    (∀ f, f = Field.B ∨ f = Field.H → bhjmCylinder fuel f dim pol x =
+      (cylCoreTv μ fuel z0 r z phi pol).bind fun tv => (cylCoreAx μ fuel z0 r z phi pol).map fun ax =>
+        wrapCylinder f m.inside m.onEdge pol ax tv) := by
+  refine ⟨fun ax tv => ?_, fun f hf => ?_⟩
+  · exact bhjmCylinderRow_JM μ fuel _ _ _ (Complex.arg ⟨x.x, x.y⟩) pol ax tv
+  · exact bhjmCylinderRow_eq_wrap μ fuel f hf _ _ _ _ pol
+
+/-- C02 (Cylinder): B = μ₀H + J and J = μ₀M for **every** observer of `BHJM_magnet_cylinder` — inside,
+outside, on the hull, on the bases, on the edge (B = 0, H = −J/μ₀ there), on the axis, for axial,
+transversal, mixed and zero polarization: J and M are always returned; B is returned iff H is
+(the same `cel0` calls), and then the identity holds. -/
+theorem cylinder_consistent (fuel : Nat) (dim : ℝ × ℝ) (pol x : V3 ℝ) :
+    letI := realNum μ
+    ∃ j m, bhjmCylinder fuel .J dim pol x = some j ∧ bhjmCylinder fuel .M dim pol x = some m ∧ j = vs μ m ∧
+      (bhjmCylinder fuel .B dim pol x).isSome = (bhjmCylinder fuel .H dim pol x).isSome ∧
+      ∀ b h, bhjmCylinder fuel .B dim pol x = some b → bhjmCylinder fuel .H dim pol x = some h →
+        b = vs μ h + j := by
+  let _ := realNum μ
+  obtain ⟨hJM, hBH⟩ := cylinder_is_wrapCylinder μ hμ fuel dim pol x
+  obtain ⟨hJ, hM⟩ := hJM ⟨0, 0, 0⟩ ⟨0, 0, 0⟩
+  have hB := hBH .B (Or.inl rfl)
+  have hH := hBH .H (Or.inr rfl)
+  refine ⟨_, _, hJ, hM, (wrapCylinder_consistent μ hμ _ _ pol _ _).2, ?_, ?_⟩
+  · rw [hB, hH]
+    rcases cylCoreTv μ fuel _ _ _ _ pol with _ | tv
+    · rfl
+    · rcases cylCoreAx μ fuel _ _ _ _ pol with _ | ax <;> rfl
+  · intro b h
+    rw [hB, hH]
+    rcases cylCoreTv μ fuel _ _ _ _ pol with _ | tv
+    · intro eb; simp at eb
+    · rcases cylCoreAx μ fuel _ _ _ _ pol with _ | ax
+      · intro eb; simp at eb
+      · intro eb eh
+        simp only [Option.bind_some, Option.map_some, Option.some.injEq] at eb eh
+        subst eb eh
+        exact (wrapCylinder_consistent μ hμ _ _ pol ax tv).1
+
+/-- C02 (Cylinder): J is the polarization on the closed geometric cylinder `|z| ≤ h/2 ∧ √(x²+y²) ≤ d/2`
+and zero outside — the code's mask (comparisons of the quotients by r0) is the geometric body, for
+every positive diameter -/
+theorem cylinder_j_is_indicator (fuel : Nat) (d h : ℝ) (hd : 0 < d) (pol x : V3 ℝ) :
+    letI := realNum μ
+    bhjmCylinder fuel .J (d, h) pol x =
+      some (if |x.z| ≤ h / 2 ∧ Real.sqrt (x.x * x.x + x.y * x.y) ≤ d / 2 then pol else zero3) := by
+  let _ := realNum μ
+  have hr0 : (0 : ℝ) < d / 2 := by positivity
+  have key := cylMasks_inside_iff μ (d / 2) (h / 2) (Real.sqrt (x.x * x.x + x.y * x.y)) x.z hr0
+  unfold bhjmCylinder bhjmCylinderRow
+  simp only [Option.some.injEq]
+  split_ifs with h1 h2 h2
+  · rfl
+  · exact absurd (key.mp h1) h2
+  · exact absurd (key.mpr h2) h1
+  · rfl
 end
 
 -- non-vacuity (μ = 1): a left-handed tetrahedron with an observer inside — the chirality swap
@@ -123,6 +199,15 @@ example : letI := realNum 1
     bhjmCircle 200 .H 2 1 (⟨0, 0, 0⟩ : V3 ℝ) = some ⟨0, 0, 1 / 2⟩ := by
   simp [bhjmCircle, n]
 
+-- Cylinder (μ = 1): an observer exactly on the edge of the cylinder of diameter 2 and height 2 — the on-edge rule
+-- fires (no elliptic integral is evaluated: fuel 0 suffices): B = 0, H = −J/μ₀, J = pol ≠ 0
+example : letI := realNum 1
+    bhjmCylinder 0 .B (2, 2) ⟨0, 0, 1⟩ (⟨1, 0, 1⟩ : V3 ℝ) = some ⟨0, 0, 0⟩ ∧
+    bhjmCylinder 0 .H (2, 2) ⟨0, 0, 1⟩ (⟨1, 0, 1⟩ : V3 ℝ) = some ⟨0, 0, -1⟩ ∧
+    bhjmCylinder 0 .J (2, 2) ⟨0, 0, 1⟩ (⟨1, 0, 1⟩ : V3 ℝ) = some ⟨0, 0, 1⟩ := by
+  refine ⟨?_, ?_, ?_⟩ <;>
+    simp [bhjmCylinder, bhjmCylinderRow, cylMasks, isclose, n, vd]
+
 /-- FULL (`mu0_single`): every place where a value for mu_0 enters the package is the exported
 constant.  False on the current tree: the two magnetization/polarization setters spell out
 4π·1e-7 (known finding, pinned by an existing test).  Proved: everywhere else it is the
@@ -137,5 +222,56 @@ theorem mu0_single_partial :
 theorem mu0_fields_use_exported :
     (Gen.Const.mu0Sites.filter (fun s => s.2.2.2)).all (fun s => s.2.2.1 == "scipy") = true := by
   decide
+
+/-! ### TriangularMesh with the ray-casting inside test -/
+
+/-- C02 (TriangularMesh, one row of `BHJM_magnet_trimesh`, any inside test): B = μ·H + J and J = μ·M, because the B, J
+and M branches add the polarization under one and the same verdict `inside (mesh) (observer)` and H never does. -/
+theorem trimesh_row_consistent (μ : ℝ) (hμ : μ ≠ 0) {M : Type} (meshId : MeshRow ℝ → M) (inside : M → V3 ℝ → Bool)
+    (r : MeshRow ℝ) :
+    letI := realNum μ
+    bhjmTrimeshRow .B meshId inside r = vs μ (bhjmTrimeshRow .H meshId inside r) + bhjmTrimeshRow .J meshId inside r ∧
+    bhjmTrimeshRow .J meshId inside r = vs μ (bhjmTrimeshRow .M meshId inside r) := by
+  constructor <;> cases h : inside (meshId r) r.obs <;>
+    (apply V3.ext' <;> simp [bhjmTrimeshRow, h, vs, vd, zero3, n] <;> (try field_simp) <;> (try ring))
+
+/-- C02 (TriangularMesh as computed): the whole batch function with the ported `mask_inside_trimesh` satisfies
+B = μ₀H + J and J = μ₀M row by row (`C06.trimesh_batch_rowwise_ray_test` reduces the batch to rows). -/
+theorem trimesh_ray_test_consistent (r : MeshRow ℝ) :
+    bhjmTrimeshRow .B (fun r => r.faces) maskInsideTrimesh r =
+      vs mu0R (bhjmTrimeshRow .H (fun r => r.faces) maskInsideTrimesh r) +
+        bhjmTrimeshRow .J (fun r => r.faces) maskInsideTrimesh r ∧
+    bhjmTrimeshRow .J (fun r => r.faces) maskInsideTrimesh r =
+      vs mu0R (bhjmTrimeshRow .M (fun r => r.faces) maskInsideTrimesh r) :=
+  trimesh_row_consistent mu0R mu0R_pos.ne' _ _ r
+
+/-- FULL (not true of the code): J of a TriangularMesh is the polarization at every point inside the body.
+**Witness that the ray test is not the geometric inside predicate**: the point
+x = (0.120012345, 0.059923456, 0.574932109) lies strictly inside the unit tetrahedron (all four barycentric coordinates
+positive — the Tetrahedron class's own `point_inside` says inside), yet `mask_inside_trimesh` answers "outside", so J = 0
+there: x sits on the plane through the start point of the test ray and the edge (0,0,0)–(0,0,1); the ray passes through
+that edge, BOTH faces sharing it count a crossing (pass-through-boundary), and the parity comes out even.  Reproduced on
+the real code (`TriangularMesh.getJ` = 0, `Tetrahedron.getJ` = polarization at this x).  The affected observers form a
+slab of relative thickness ~1e-13 around each such plane. -/
+theorem trimesh_ray_test_misses_interior_point :
+    tetraInside (⟨0, 0, 0⟩ : V3 ℝ) ⟨1, 0, 0⟩ ⟨0, 1, 0⟩ ⟨0, 0, 1⟩
+      ⟨120012345 / 1000000000, 59923456 / 1000000000, 574932109 / 1000000000⟩ = true ∧
+    maskInsideTrimesh unitTetra ⟨120012345 / 1000000000, 59923456 / 1000000000, 574932109 / 1000000000⟩ = false ∧
+    bhjmTrimeshRow .J (fun r => r.faces) maskInsideTrimesh
+      { faces := unitTetra, obs := ⟨120012345 / 1000000000, 59923456 / 1000000000, 574932109 / 1000000000⟩,
+        pol := ⟨0, 0, 1⟩ } = zero3 := by
+  refine ⟨?_, unitTetra_edge_ray_outside, ?_⟩
+  · simp [tetraInside, det3, n]
+    norm_num
+  · simp only [bhjmTrimeshRow, unitTetra_edge_ray_outside, Bool.false_eq_true, if_false]
+
+-- non-vacuity of the consistency statement with both verdicts: (1/4,1/4,1/4) is found inside (J = polarization) …
+example : bhjmTrimeshRow .J (fun r => r.faces) maskInsideTrimesh
+    { faces := unitTetra, obs := ⟨1 / 4, 1 / 4, 1 / 4⟩, pol := (⟨0, 0, 1⟩ : V3 ℝ) } = zero3 + ⟨0, 0, 1⟩ := by
+  simp only [bhjmTrimeshRow, unitTetra_quarter_inside, if_true]
+-- … (3/5,3/5,3/5) outside (J = 0)
+example : bhjmTrimeshRow .J (fun r => r.faces) maskInsideTrimesh
+    { faces := unitTetra, obs := ⟨3 / 5, 3 / 5, 3 / 5⟩, pol := (⟨0, 0, 1⟩ : V3 ℝ) } = zero3 := by
+  simp only [bhjmTrimeshRow, unitTetra_outside_in_box.2, Bool.false_eq_true, if_false]
 
 end MagpyVerif.C02
